@@ -111,3 +111,38 @@ package service
 //@   loop 1: invariant fresh(txHashList)
 //@   ensures [executed] forall j int :: 0 <= j && j < len(receipts) ==> @select(@select(ghost(kvhas), ref(pool.executed)), bytes(receipts[j].TxHash))
 //@   ensures [kept]     forall k Bytes :: old(@select(@select(ghost(kvhas), ref(pool.executed)), k)) ==> @select(@select(ghost(kvhas), ref(pool.executed)), k)
+
+// Packing (C17): nonce-checked transactions (RequestId == 0) are never packed ahead of the sender's next
+// expected nonce - the state nonce plus what has already been placed - and a batch never exceeds the
+// per-block limit.
+//@ spec abstract fn nonceOf(a common.Address) uint64
+//@ spec abstract fn hexAddr(s string) common.Address
+
+//@ func ext_hexToAddress
+//@   option trusted extern=com.tuntun.rangers/node/src/common.HexToAddress
+//@   ensures result == hexAddr(arg0)
+//@   modifies nothing
+
+//@ func ext_getNonce
+//@   option trusted extern=(*com.tuntun.rangers/node/src/storage/account.AccountDB).GetNonce
+//@   ensures result == nonceOf(arg1)
+//@   modifies nothing
+
+// sort.Sort permutes the slice in place.
+//@ func ext_sortTransactions
+//@   option trusted extern=sort.Sort argtype=0:middleware/types.Transactions
+//@   ensures (forall i int :: 0 <= i && i < len(arg0) ==> old(arg0[i]) != nil) ==> forall i int :: 0 <= i && i < len(arg0) ==> arg0[i] != nil
+//@   modifies elems(arg0)
+
+//@ func TxPool.checkNonce
+//@   property C17
+//@   option intmode=math
+//@   requires stateDB != nil && txPoolLogger != nil && forall i int :: 0 <= i && i < len(txList) ==> txList[i] != nil
+//@   # nonces are far from wrapping
+//@   requires [nonces] forall a common.Address :: nonceOf(a) < 4611686018427387904
+//@   loop 0: invariant fresh(packedTxs) && len(packedTxs) < txCountPerBlock && len(packedTxs) <= rangeidx() + 1 && nonceMap != nil
+//@   loop 0: invariant forall i int :: 0 <= i && i < len(txs) ==> txs[i] != nil
+//@   loop 0: invariant forall p int :: 0 <= p && p < len(packedTxs) ==> packedTxs[p] != nil && (packedTxs[p].RequestId == 0 ==> packedTxs[p].Nonce <= nonceOf(hexAddr(packedTxs[p].Source)) + p)
+//@   loop 0: invariant forall s string :: has(nonceMap, s) ==> nonceMap[s] <= nonceOf(hexAddr(s)) + len(packedTxs)
+//@   ensures [limit] len(result) <= txCountPerBlock
+//@   ensures [ahead] forall p int :: 0 <= p && p < len(result) ==> result[p] != nil && (result[p].RequestId == 0 ==> result[p].Nonce <= nonceOf(hexAddr(result[p].Source)) + p)
